@@ -111,6 +111,86 @@ class SInt(Sym):
     __hash__ = Sym.__hash__
 
 
+def zreal(v):
+    """exact rational -> z3 Real (ints, Fractions and finite Decimals are exact; floats are refused)"""
+    from fractions import Fraction
+    from decimal import Decimal
+    if isinstance(v, SReal):
+        return v.z
+    if isinstance(v, SInt):
+        return z3.ToReal(v.z)
+    if isinstance(v, bool):
+        raise TypeError("bool as real")
+    if isinstance(v, (int, Fraction, Decimal)):
+        q = Fraction(v)
+        return z3.Q(q.numerator, q.denominator)
+    raise TypeError(f"not an exact real value: {v!r}")
+
+
+def z_round_half_even(x):
+    """Python's round(Fraction) (ties to even) on a z3 Real -> z3 Int"""
+    f = z3.ToInt(x)                     # floor
+    d = x - z3.ToReal(f)
+    half = z3.Q(1, 2)
+    return z3.If(d < half, f, z3.If(d > half, f + 1, z3.If(f % 2 == 0, f, f + 1)))
+
+
+def z_trunc(x):
+    """int(Fraction): truncation toward zero"""
+    f = z3.ToInt(x)
+    return z3.If(z3.Or(x >= 0, z3.ToReal(f) == x), f, f + 1)
+
+
+class SReal(Sym):
+    """An exact rational (fractions.Fraction, or a finite decimal.Decimal converted to one)."""
+    def _bin(self, o, f):
+        try:
+            return SReal(z3.simplify(f(self.z, zreal(o))))
+        except TypeError:
+            return NotImplemented
+
+    def __add__(self, o): return self._bin(o, lambda a, b: a + b)
+    def __radd__(self, o): return self._bin(o, lambda a, b: b + a)
+    def __sub__(self, o): return self._bin(o, lambda a, b: a - b)
+    def __rsub__(self, o): return self._bin(o, lambda a, b: b - a)
+    def __mul__(self, o): return self._bin(o, lambda a, b: a * b)
+    def __rmul__(self, o): return self._bin(o, lambda a, b: b * a)
+    def __neg__(self): return SReal(z3.simplify(-self.z))
+    def __pos__(self): return self
+    def __abs__(self): return SReal(z3.If(self.z >= 0, self.z, -self.z))
+
+    def __truediv__(self, o):
+        from fractions import Fraction
+        if isinstance(o, (int, Fraction)) and not isinstance(o, bool) and o != 0:
+            return SReal(z3.simplify(self.z / zreal(o)))
+        return NotImplemented        # division by a symbolic value: the engine refuses (Unsupported)
+
+    def _cmp(self, o, f):
+        try:
+            return SBool(z3.simplify(f(self.z, zreal(o))))
+        except TypeError:
+            return NotImplemented
+
+    def __lt__(self, o): return self._cmp(o, lambda a, b: a < b)
+    def __le__(self, o): return self._cmp(o, lambda a, b: a <= b)
+    def __gt__(self, o): return self._cmp(o, lambda a, b: a > b)
+    def __ge__(self, o): return self._cmp(o, lambda a, b: a >= b)
+
+    def __eq__(self, o):
+        try:
+            return SBool(z3.simplify(self.z == zreal(o)))
+        except TypeError:
+            return False
+
+    def __ne__(self, o):
+        try:
+            return SBool(z3.simplify(self.z != zreal(o)))
+        except TypeError:
+            return True
+
+    __hash__ = Sym.__hash__
+
+
 class SBool(Sym):
     def __and__(self, o): return SBool(z3.And(self.z, zbool(o)))
     def __rand__(self, o): return SBool(z3.And(zbool(o), self.z))
